@@ -1,12 +1,12 @@
 package main
 
 import (
-	"golang.org/x/net/html/charset"
-	"io"
-	"encoding/json"
 	"bytes"
+	"encoding/json"
 	"encoding/xml"
 	"fmt"
+	"golang.org/x/net/html/charset"
+	"io"
 	"io/fs"
 	"mime"
 	"os"
@@ -202,16 +202,16 @@ func genCliTree(r *Rng, root string, nfiles int) []cliFile {
 }
 
 type cliRun struct {
-	flags   []string // as passed
+	flags                    []string // as passed
 	all, m, n, rec, unstrict bool
-	ftype   string
-	ns      [][2]string
-	vars    [][2]string
-	ents    [][2]string
-	expr    string
-	e       Expr
-	args    []string
-	stdin   string
+	ftype                    string
+	ns                       [][2]string
+	vars                     [][2]string
+	ents                     [][2]string
+	expr                     string
+	e                        Expr
+	args                     []string
+	stdin                    string
 }
 
 func runCli(dir string, args []string, stdin string) (stdout, stderr string, err error) {
